@@ -47,6 +47,9 @@ type funcContract struct {
 	// goSync: `go f()` statements of this function are modelled as synchronous calls
 	// (the goroutine is joined before its results are used); an assumption, listed
 	goSync bool
+	// indexInst: the quantified postconditions of this contract are also instantiated at
+	// the caller's slice-index terms (by default only at goal skolems)
+	indexInst bool
 	// nilRecvOK: the method tolerates a nil receiver (no nilrecv obligation at calls,
 	// no non-nil assumption in its own verification)
 	nilRecvOK bool
@@ -301,7 +304,7 @@ func newContractSet() *contractSet {
 var clauseKeywords = map[string]bool{
 	"prop": true, "requires": true, "ensures": true, "modifies": true, "loop": true, "trusted": true,
 	"pure": true, "panics-if": true, "nopanic": true, "maypanic": true, "mode": true, "decreases": true, "refines": true,
-	"noframe": true, "nil-receiver-ok": true, "go-sync": true, "witness": true, "modifies-if": true, "using": true, "noinv": true, "rec": true, "preserves": true, "ghost-writes": true, "defines": true, "rely": true,
+	"noframe": true, "nil-receiver-ok": true, "go-sync": true, "witness": true, "modifies-if": true, "using": true, "noinv": true, "rec": true, "preserves": true, "ghost-writes": true, "defines": true, "rely": true, "index-instances": true,
 }
 
 var reLoop = regexp.MustCompile(`^(\d+)\s*:\s*(invariant|decreases)\s+(.*)$`)
@@ -585,6 +588,8 @@ func (cs *contractSet) loadContractFile(path, pkgPath string) error {
 					fc.noframe = true
 				case "nil-receiver-ok":
 					fc.nilRecvOK = true
+				case "index-instances":
+					fc.indexInst = true
 				case "go-sync":
 					fc.goSync = true
 				case "noinv":
